@@ -152,7 +152,7 @@ func TestRAC_C03(t *testing.T) {
 					}
 				}
 			}
-			if n%11 == 1 {
+			if n%11 == 1 && len(alpha) >= 2 {
 				res.sample(map[string]interface{}{"history": h.String(), "positions": maxp + 1, "hash_alphabet": len(alpha), "example_claim": claim{[]uint64{0, 1}, alpha[:2], alpha[:1]}.in(h, "all")})
 			}
 		})
